@@ -126,7 +126,7 @@ impl Compiler {
         nargs: u8,
         global_name: &str,
         span: Span,
-    ) {
+    ) -> Result<()> {
         let line = self.current_line(span);
 
         // Check if this is a known native function (builtin or stdlib)
@@ -150,8 +150,15 @@ impl Compiler {
             self.current.push_raw(0);
         } else {
             // Unknown global type - emit CallGlobal for runtime patching
+            // slot ids and `call_site_count` are u16 (the cache word and the .avbc format)
             let slot_id = self.next_call_site_slot;
-            self.next_call_site_slot += 1;
+            self.next_call_site_slot = slot_id.checked_add(1).ok_or_else(|| {
+                aelys_common::error::AelysError::from(CompileError::new(
+                    CompileErrorKind::TooManyCallSites,
+                    span,
+                    self.source.clone(),
+                ))
+            })?;
 
             self.current
                 .emit_a(OpCode::CallGlobal, dest, global_idx, nargs, line);
@@ -165,5 +172,6 @@ impl Compiler {
 
         // Record line info for the cache words (same line as the instruction)
         self.current.record_lines(2, line);
+        Ok(())
     }
 }
